@@ -2,6 +2,7 @@ package checks
 
 import (
 	"bytes"
+	"encoding/binary"
 	"errors"
 	"fmt"
 	"io"
@@ -9,6 +10,7 @@ import (
 	"strconv"
 	"strings"
 	"time"
+	"verif/internal/wire"
 
 	"github.com/hugelgupf/p9/linux"
 	"github.com/hugelgupf/p9/p9"
@@ -21,7 +23,7 @@ import (
 func init() {
 	ev.Register(&ev.Spec{
 		ID: "C11", Level: "exploration",
-		Rule:    "real client <-> real server over a backend file whose content is a function of the offset (so offsets beyond 2^32 and multi-MiB sizes are free) and whose ReadAt/WriteAt are scripted (short count or error on chunk j); grid msize {154 (smallest accepted), 155, 665, 666, 1024+-1, 4K, 64K, 1M; thorough adds 54 PRNG msize values between 154 and 2.1 MiB} x len(p) {0, 1, L-1, L, L+1, 2L-1, 2L, 2L+1, 3L+7, PRNG} (L = the chunk size observed for this msize) x offsets {0, 1, size-1, size, size+1, 2^32+-1, 2^40} x file sizes on both sides of off+len x fault on each chunk index. Oracle on the backend's chunk log and the client's return: chunks in order, contiguous, within the protocol's payload bound, none after the first short or failed chunk, (n, err, bytes) as one operation on a byte-slice model, io.EOF only if n < len(p) and always if n == 0 < len(p), zero-length p => one request. Non-trivial: >= 2 chunks or a boundary (EOF, short, error); distinct by (msize, len class, offset class, fault).",
+		Rule:    "real client <-> real server over a backend file whose content is a function of the offset (so offsets beyond 2^32 and multi-MiB sizes are free) and whose ReadAt/WriteAt are scripted (short count or error on chunk j); grid msize {154 (smallest accepted), 155, 665, 666, 1024+-1, 4K, 64K, 1M; thorough adds 54 PRNG msize values between 154 and 2.1 MiB; four configurations where the connection had accepted a Tversion with another msize before the client negotiated} x len(p) {0, 1, L-1, L, L+1, 2L-1, 2L, 2L+1, 3L+7, PRNG} (L = the chunk size observed for this msize) x offsets {0, 1, size-1, size, size+1, 2^32+-1, 2^40} x file sizes on both sides of off+len x fault on each chunk index. Oracle on the backend's chunk log and the client's return: chunks in order, contiguous, within the protocol's payload bound, none after the first short or failed chunk, (n, err, bytes) as one operation on a byte-slice model, io.EOF only if n < len(p) and always if n == 0 < len(p), zero-length p => one request. Non-trivial: >= 2 chunks or a boundary (EOF, short, error); distinct by (msize, len class, offset class, fault).",
 		Assume:  []string{"memfs synthetic file is the byte-slice model", "the backend's call log (len@off per chunk) is what the server forwarded", "p[n:] is not asserted"},
 		Shards:  shards(8, 16),
 		Timeout: timeout(8*time.Minute, 60*time.Minute),
@@ -59,7 +61,12 @@ type c11world struct {
 	hd   chan struct{}
 }
 
-func c11Setup(c *ev.Ctx, msize uint32) *c11world {
+func c11Setup(c *ev.Ctx, msize uint32) *c11world { return c11SetupPrimed(c, msize, 0) }
+
+// c11SetupPrimed: before the client negotiates msize, the connection has
+// already seen an accepted Tversion with another msize (a probe, an earlier
+// user of the transport). The later negotiation is the one in force.
+func c11SetupPrimed(c *ev.Ctx, msize, prime uint32) *c11world {
 	w := &c11world{fs: memfs.New()}
 	w.node = w.fs.MkPath("/s", p9.ModeRegular|0644, "")
 	w.node.Synth = true
@@ -71,6 +78,19 @@ func c11Setup(c *ev.Ctx, msize uint32) *c11world {
 	go func() { srv.Handle(sc, sc); close(w.hd) }()
 	var err error
 	ok := ev.Watch(60*time.Second, func() {
+		if prime != 0 {
+			if _, err = cc.Write(wire.Encode(wire.Tversion, wire.NOTAG, uint64(prime), v7)); err != nil {
+				return
+			}
+			var h [4]byte
+			if _, err = io.ReadFull(cc, h[:]); err != nil {
+				return
+			}
+			rest := make([]byte, binary.LittleEndian.Uint32(h[:])-4)
+			if _, err = io.ReadFull(cc, rest); err != nil {
+				return
+			}
+		}
 		w.cl, err = p9.NewClient(cc, p9.WithMessageSize(msize))
 		if err != nil {
 			return
@@ -152,12 +172,18 @@ func runC11(c *ev.Ctx) {
 		}
 	}
 	idx := 0
-	for _, ms := range msizes {
+	// primed[i] != 0: the connection saw an accepted Tversion with that msize first
+	primed := make([]uint32, len(msizes))
+	for _, pr := range [][2]uint32{{65536, 8192}, {1 << 20, 4096}, {4096, 1 << 20}, {8192, 154}} {
+		msizes = append(msizes, pr[0])
+		primed = append(primed, pr[1])
+	}
+	for mi, ms := range msizes {
 		idx++
 		if !c.Mine(idx) {
 			continue
 		}
-		w := c11Setup(c, ms)
+		w := c11SetupPrimed(c, ms, primed[mi])
 		if w == nil {
 			continue
 		}
